@@ -784,7 +784,10 @@ class MatrixATADSolver:
 
         assert isinstance(W, Array)
         N, M = A.shape
-        if N < M and D.ndim == 1:
+        # the Woodbury identity requires an invertible W: fall back to direct factorization
+        # if any of the weights is zero
+        self.woodbury = bool(N < M and D.ndim == 1 and snp.all(W != 0))
+        if self.woodbury:
             G = snp.diag(1.0 / W) + A @ (A.T.conj() / D[:, snp.newaxis])
         else:
             if D.ndim == 1:
@@ -825,8 +828,7 @@ class MatrixATADSolver:
             D = self.D
         else:
             D = self.D[:, snp.newaxis]
-        N, M = self.A.shape
-        if N < M and self.D.ndim == 1:
+        if self.woodbury:
             w = fact_solve(self.A @ (b / D))
             x = (b - (self.A.T.conj() @ w)) / D
         else:
